@@ -13,6 +13,7 @@
 
 #ifdef __cplusplus
 extern "C" {
+void vrt_trace_call(const char* name);
 #endif
 
 enum { VD_I32 = 1, VD_U32, VD_I64, VD_U64, VD_PTR, VD_CUSTOM, VD_U8 };
